@@ -148,9 +148,11 @@ def dfs_done_line(func):
 
 
 def show_dfs(rounds):
+    """start ; discovery order ; tree (children in discovery order, parents sorted) ; closure bonds (sorted pairs).  Cycle ids and
+    the insertion orders of the `edges`/`tokens` dicts are internal (nothing observable depends on them) and not compared."""
     return ' / '.join('%d;%s;%s;%s' % (st, ','.join(map(str, vis)),
-                                        ' '.join('%d>%s' % (p, ','.join(map(str, cs))) for p, cs in edges),
-                                        ' '.join('%d>%s' % (a, ','.join('%d:%d' % bc for bc in l)) for a, l in tokens))
+                                        ' '.join('%d>%s' % (p, ','.join(map(str, cs))) for p, cs in sorted(edges)),
+                                        ' '.join('%d-%d' % ab for ab in sorted({(a, b) for a, l in tokens for b, _ in l if a < b})))
                       for st, vis, edges, tokens in rounds)
 
 
@@ -1256,7 +1258,7 @@ def correspond(ctx):
                     _state.setdefault('disagree', []).append((m, spec, seed, name))
             elif op == 'D':
                 ctx.count(('D', spec, tuple(wire.mol_to_ints(m)), seed), m.bonds_count > 0)
-                ctx.dist('dfs-internals:rounds=%s,closures=%s' % (min(want.count(' / ') + 1, 3), 'yes' if ':' in want else 'no'))
+                ctx.dist('dfs-internals:rounds=%s,closures=%s' % (min(want.count(' / ') + 1, 3), 'yes' if '-' in want else 'no'))
                 if got != want:
                     ctx.cov['disagreements_checked'] += 1
                     ctx.broke('correspondence', 'dfs-internals', f'{name}/{tag} [{spec!r}] seed={seed}\n real : {want[:400]}\n model: {got[:400]}')
